@@ -13,7 +13,7 @@ WORDS = ["alpha", "bravo", "chunk", "delta", "echo", "frame", "gamma", "hotel", 
 FEATURES = ["enums", "signed_enum", "bits_type", "anon_bits", "leaf_struct", "params", "cond", "dyn_array",
             "struct_array", "param_struct_array", "next", "virtuals", "transforms", "requires", "struct_requires",
             "union", "dyn_offset", "bcd", "float", "skip", "no_default_order", "wide", "int_fields", "max_present",
-            "nested_cond", "bits_array", "struct_default_order", "emit_attr", "inline_types", "dyn_struct"]
+            "nested_cond", "bits_array", "struct_default_order", "emit_attr", "inline_types", "dyn_struct", "imports"]
 
 
 class Names:
@@ -652,6 +652,10 @@ class Gen:
                     t.parent = rng.choice(mains).name
         m = D.ModuleDef("sim", self.module_default_order, self.enums, self.structs)
         m.mains = [s.name for s in mains]
+        # helper types in an imported file (only when none of them is an inline definition: a type
+        # in the imported file could not refer to one defined inside a structure of the importing file)
+        m.split = bool("imports" in self.f and len(self.structs) + len(self.enums) > len(mains)
+                       and not any(getattr(t, "parent", None) for t in list(self.enums) + list(self.structs)))
         return m
 
 
